@@ -37,7 +37,7 @@ REQUIRED_REACH = ['CConversionBoundaryCondition.recuperateBoundaryCondition',
 FAMILIES = ['planes', 'sphere', 'cylinder', 'mixed', 'dup-lower-unflagged',
             'dup-higher-unflagged', 'dup-both-flagged', 'with-tr', 'unused',
             'only-imp0', 'macrobody', 'none', 'in-union', 'via-complement',
-            'in-union-branch']
+            'in-union-branch', 'one-sheet-cone']
 _PER = {'quick': 12, 'thorough': 700}
 KIND = {'*': 'REFLECTION', '+': 'COSINUS'}
 
@@ -150,6 +150,28 @@ def build(case):
         deck.surfs.append(body)
         cells[0].geom = M.AND(M.S(-7), M.S(-50))
         deck.tags.add(f'bc.macro.{kind}')
+    if fam == 'one-sheet-cone':
+        # a flagged one-sheet cone is written as a cone plus an auxiliary
+        # plane: the entry must designate the cone
+        ax = rng.choice('xyz')
+        sheet = rng.choice([1, -1])
+        apex = rnd(rng, -0.5, 0.5) - 2.5 * sheet
+        kind = rng.choice(['k' + ax, 'k/' + ax])
+        t2 = rnd(rng, 0.05, 0.3)
+        if '/' in kind:
+            cen = [rnd(rng, -0.2, 0.2) for _ in range(3)]
+            cen['xyz'.index(ax)] = apex
+            cone = M.Surf(12, kind, cen + [t2, sheet])
+        else:
+            cone = M.Surf(12, kind, [apex, t2, sheet])
+        flag(cone)
+        deck.surfs.append(cone)
+        cells[0].geom = M.AND(M.S(-7), M.S(-12))
+        deck.cells.insert(1, M.Cell(5, mat=1, rho='-1.7',
+                                    geom=M.AND(M.S(-7), M.S(12)),
+                                    imp={'n': '1'}))
+        if rng.random() < 0.4:
+            flag(rng.choice(planes))
     if fam in ('in-union', 'via-complement', 'in-union-branch'):
         # flagged surfaces that reach the cells they bound only through
         # FICTIVE helper volumes (operands of UNION / INTE)
@@ -258,8 +280,18 @@ def run(case, ctx):
     nprng = np.random.default_rng(case.rng.getrandbits(60))
     pts = nprng.uniform(-8, 8, (400, 3))
 
+    def locus_values(sur):
+        if sur.kind in ('kx', 'ky', 'kz') and len(sur.params) == 3 or \
+                sur.kind in ('k/x', 'k/y', 'k/z') and len(sur.params) == 5:
+            # the surface as a point set is the full (two-sheet) cone
+            from .. import mcnp_ref
+            mot = reference.surf_motion(sur)
+            loc = pts if mot is None else mot.to_aux(pts)
+            return mcnp_ref.elementary(sur.kind, sur.params[:-1], loc)
+        return reference.leaf_sense(('s', sur.id, 1, None), pts)
+
     def same_locus(sur, t4surf):
-        fref = reference.leaf_sense(('s', sur.id, 1, None), pts)
+        fref = locus_values(sur)
         fact = t4eval.surf_value(t4surf, pts, t4.transforms)
         ok = (np.abs(fref) > 1e-9) & (np.abs(fact) > 1e-9)
         prod = np.sign(fref[ok]) * np.sign(fact[ok])
@@ -287,9 +319,9 @@ def run(case, ctx):
     # one entry, or have one each when they stay distinct SURFs
     groups = []
     for sur in bounding:
-        fref = reference.leaf_sense(('s', sur.id, 1, None), pts)
+        fref = locus_values(sur)
         for grp in groups:
-            gref = reference.leaf_sense(('s', grp[0].id, 1, None), pts)
+            gref = locus_values(grp[0])
             prod = np.sign(fref) * np.sign(gref)
             if grp[0].flag == sur.flag and (np.all(prod >= 0)
                                             or np.all(prod <= 0)):
